@@ -67,9 +67,9 @@ def build_spec(rng, backend, noline_opt, no_reject=False, risky=False):
             avoid += ["REJECT", "yyreject"]    # flex looks for these words in actions textually; full tables refuse them (C07)
         if not risky:
             # two known findings (KNOWN_FINDINGS.json) are kept out of most specifications so that they do not mask anything else
-            if kind == "action-percent-brace":
+            if kind.startswith("action-percent-brace"):
                 avoid += ["%}", "/*"]
-            if kind in ("action-percent-brace", "sect1-block", "sect2-top", "sect2-indented"):
+            if kind.startswith("action-percent-brace") or kind in ("sect1-block", "sect2-top", "sect2-indented"):
                 avoid += ["yyreject", "yymore"]
         p = payload(rng, avoid)
         exp[k[0]] = [p, None, kind]
@@ -136,32 +136,34 @@ def build_spec(rng, backend, noline_opt, no_reject=False, risky=False):
     # rules: a..h; each input letter triggers one rule
     letters = "abcdefgh"
     for ch in letters:
-        style = rng.pick(["oneline", "oneline", "multiline", "bar", "percent", "nobrace"])
-        if style == "bar" and backend == 'c99':
-            style = "oneline"          # ('|' actions of the c99 back end: known finding of C06)
+        style = rng.pick(["oneline", "oneline", "multiline", "percent", "nobrace"])
         for _ in range(rng.rng(0, 2)):
             emit("")
+        if rng.chance(25) and backend != 'c99':          # ('|' actions of the c99 back end: known finding of C06)
+            # a '|' action: the rule shares the action of the next rule, whatever form that action has
+            emit("%s%s\t|" % (ch, ch))
+            for _ in range(rng.rng(0, 1)):
+                emit("")
+            barred = True
+        else:
+            barred = False
         if style == "oneline":
-            kk, st = rec_stmt("action-oneline")
+            kk, st = rec_stmt("action-oneline" + ("-after-bar" if barred else ""))
             put(kk, "%s\t{ %s }" % (ch, st))
         elif style == "nobrace":
-            kk, st = rec_stmt("action-nobrace")
+            kk, st = rec_stmt("action-nobrace" + ("-after-bar" if barred else ""))
             put(kk, "%s\t%s" % (ch, st))
         elif style == "multiline":
             emit("%s\t{" % ch)
             for _ in range(rng.rng(1, 3)):
-                kk, st = rec_stmt("action-multiline")
+                kk, st = rec_stmt("action-multiline" + ("-after-bar" if barred else ""))
                 put(kk, "        " + st)
                 if rng.chance(30):
                     emit("")
             emit("\t}")
-        elif style == "bar":
-            emit("%s%s\t|" % (ch, ch))
-            kk, st = rec_stmt("action-after-bar")
-            put(kk, "%s\t{ %s }" % (ch, st))
         elif style == "percent":
             emit("%s\t%%{" % ch)
-            kk, st = rec_stmt("action-percent-brace")
+            kk, st = rec_stmt("action-percent-brace" + ("-after-bar" if barred else ""))
             put(kk, "        " + st)
             emit("\t%}")
     emit(".|\\n\t{ }")
@@ -228,8 +230,8 @@ def one(job):
         shutil.rmtree(wd, ignore_errors=True)
         known = None
         if risky:
-            pb = [v[0] for v in exp.values() if v[2] == "action-percent-brace"]
-            cb = [v[0] for v in exp.values() if v[2] in ("action-percent-brace", "sect1-block", "sect2-top", "sect2-indented")]
+            pb = [v[0] for v in exp.values() if v[2].startswith("action-percent-brace")]
+            cb = [v[0] for v in exp.values() if v[2].startswith("action-percent-brace") or v[2] in ("sect1-block", "sect2-top", "sect2-indented")]
             if any(b"%}" in p or b"/*" in p for p in pb):
                 known = "percent-brace-action-not-string-aware"
             elif any(b"yyreject" in p or b"yymore" in p for p in cb):
@@ -272,8 +274,8 @@ def one(job):
     shutil.rmtree(wd, ignore_errors=True)
     known = None
     if risky and problems:
-        pb = [v[0] for v in exp.values() if v[2] == "action-percent-brace"]
-        cb = [v[0] for v in exp.values() if v[2] in ("action-percent-brace", "sect1-block", "sect2-top", "sect2-indented")]
+        pb = [v[0] for v in exp.values() if v[2].startswith("action-percent-brace")]
+        cb = [v[0] for v in exp.values() if v[2].startswith("action-percent-brace") or v[2] in ("sect1-block", "sect2-top", "sect2-indented")]
         if any(b"%}" in p or b"/*" in p for p in pb):
             known = "percent-brace-action-not-string-aware"
         elif any(b"yyreject" in p or b"yymore" in p for p in cb):
